@@ -1926,6 +1926,18 @@ def spec_short_cluster_resume(fns, consts):
             continue
         ok = len(stores) == 1 and list(stores.values())[0] == ("bv", "(_ bv0 64)", 64)
         add("the recorded skip count is used once: reset to 0 before the cluster is advanced by it", pc, "false" if ok else "true")
+    # ... and it is consumed on EVERY path: an early return (the token is a hyphen value) must not leave a recorded
+    # count behind for the next cluster (kept as a separate target: a recorded known finding)
+    early = 0
+    for (pc, val), ca, env in paths:
+        cn = [c[0] for c in ca]
+        if any(x.endswith("::advance_by") for x in cn) or val is None:
+            continue
+        stores = {k: v for k, v in env.items() if re.match(r"^place:\(\(\*_1\)\.\d+: usize\)$", k)}
+        ok = len(stores) == 1 and list(stores.values())[0] == ("bv", "(_ bv0 64)", 64)
+        early += 1
+        obs.append({"fn": fn.name, "block": "ret", "kind": "spec", "target": "short_cluster_skip_consumed",
+                    "msg": "a return before the cluster is advanced (hyphen-value / negative-number early exits) also consumes the recorded skip count", "pc": list(pc), "neg": "false" if ok else "true"})
     if n_resume == 0 or n_adv == 0:
         add("parse_short_arg: no path finds a flag subcommand with flags left", [], "true", block="shape")
     for o in ex.obligations:
